@@ -1,0 +1,74 @@
+// SPDX-License-Identifier: GPL-3.0-or-later
+/*
+ * Verification hooks (interrupt points). Compiled to nothing unless
+ * INOVESA_VERIF is defined to 1 by the (external) verification build.
+ */
+
+#pragma once
+
+#if defined(INOVESA_VERIF) && INOVESA_VERIF == 1
+
+#include <csignal>
+#include <cstdio>
+#include <cstdlib>
+#include <cstring>
+
+namespace verifhooks
+{
+/**
+ * @brief point marks a place where an interrupt can arrive
+ *
+ * Every executed point increments a counter. If the counter equals one of
+ * the (comma separated) values in INOVESA_VERIF_SIGINT_AT, a real SIGINT
+ * is raised. If INOVESA_VERIF_POINTLOG names a file, "counter tag step"
+ * is appended for every point (and "(INJECTED)" where a signal was raised).
+ */
+inline void point(const char* tag, unsigned long step)
+{
+    static long counter = 0;
+    static bool init = false;
+    static long at[16];
+    static int nat = 0;
+    static FILE* log = nullptr;
+    if (!init) {
+        init = true;
+        const char* s = std::getenv("INOVESA_VERIF_SIGINT_AT");
+        while (s != nullptr && *s != '\0' && nat < 16) {
+            char* end = nullptr;
+            long v = std::strtol(s,&end,10);
+            if (end == s) {
+                break;
+            }
+            at[nat++] = v;
+            s = (*end == ',') ? end+1 : end;
+        }
+        const char* l = std::getenv("INOVESA_VERIF_POINTLOG");
+        if (l != nullptr && *l != '\0') {
+            log = std::fopen(l,"a");
+        }
+    }
+    counter++;
+    bool inject = false;
+    for (int i=0; i<nat; i++) {
+        if (at[i] == counter) {
+            inject = true;
+        }
+    }
+    if (log != nullptr) {
+        std::fprintf(log,"%ld %s %lu%s\n",counter,tag,step,
+                     inject ? " (INJECTED)" : "");
+        std::fflush(log);
+    }
+    if (inject) {
+        std::raise(SIGINT);
+    }
+}
+} // namespace verifhooks
+
+#define VERIF_POINT(tag,step) verifhooks::point(tag,step)
+
+#else // INOVESA_VERIF
+
+#define VERIF_POINT(tag,step) ((void)0)
+
+#endif // INOVESA_VERIF
